@@ -37,6 +37,30 @@ def headers():
 SUB = re.compile(r"([A-Za-z_][\w]*(?:\(\))?(?:\.\w+\(\))*|\)|\])\s*\[([^\[\]]+)\]")
 
 
+KEEP = {"size_t", "int", "static_cast", "const", "this", "std", "true", "false", "sizeof", "T", "S"}
+
+
+def normalise(expr):
+    """local variable and parameter names do not matter for what a site IS: every identifier that is not a data
+    member (_x), a called function/method (followed by '('), a member selected with . -> :: or a literal/keyword is
+    replaced by v1, v2, ... in order of first appearance, so that a pure renaming leaves the inventory unchanged
+    while a different container, index shape, dereference or offset does not"""
+    names = {}
+
+    def repl(m):
+        name, start, end = m.group(0), m.start(), m.end()
+        before = expr[:start].rstrip()
+        after = expr[end:].lstrip()
+        if name.startswith("_") or name in KEEP or name[0].isdigit():
+            return name
+        if after.startswith("(") or before.endswith((".", "->", "::")):
+            return name
+        if name not in names:
+            names[name] = "v%d" % (len(names) + 1)
+        return names[name]
+    return re.sub(r"[A-Za-z_]\w*", repl, expr)
+
+
 def subscript_sites():
     sites = []
     for rel, src in headers():
@@ -67,10 +91,19 @@ def subscript_sites():
                 sites.append((rel, re.sub(r"\s+", " ", m.group(0))))
             for m in re.finditer(r"([\w\)\]]+)\s*(\.|->)\s*(front|back)\(\)", line):
                 sites.append((rel, re.sub(r"\s+", "", m.group(0))))
-    return sorted(set(sites))
+    return sorted(set((rel, normalise(e)) for rel, e in sites))
 
 
 SHARED = re.compile(r"\b(static|thread_local|mutable|const_cast|volatile|atomic|shared_ptr|weak_ptr|extern|reinterpret_cast)\b")
+
+
+def shared_key(t):
+    """a static member FUNCTION is identified by everything up to its parameter list (parameter names and the rest
+    of the line do not matter); every other construct by the whole normalised line"""
+    par, eq = t.find("("), t.find("=")
+    if re.match(r"^(static|inline|constexpr|\[\[nodiscard\]\]|\s)+", t) and par > 0 and (eq < 0 or par < eq) and "operator" not in t[:par]:
+        return t[:par + 1]
+    return t
 
 
 def shared_sites():
@@ -82,7 +115,7 @@ def shared_sites():
                 continue
             t2 = re.sub(r"\bstatic_(cast|assert)\b", "", t)
             if SHARED.search(t2):
-                sites.append((rel, t))
+                sites.append((rel, shared_key(t)))
             elif re.search(r"^[\w:<>, ]+[\*&]\s*_\w+\s*;", t):       # pointer / reference data member
                 sites.append((rel, t))
     return sorted(set(sites))
